@@ -28,6 +28,8 @@ ASSUMPTIONS = [
     'directory that replaced a listed file are DONT_CARE',
     'CLI: each offender must be the .path of exactly one ManifestMismatch object logged at ERROR level '
     '(the logged exception object is inspected, not the wording of its message); exit status non-zero iff offenders',
+    'CLI with several paths (every case verified at the tree root): verify -k over all non-hidden top-level directories in '
+    'sorted and in reversed order; expected = multiset union of the per-path reference offender sets',
 ]
 
 TOP = 'Manifest'
@@ -175,6 +177,49 @@ def check_case(case, scratch, stats=None):
         elif rep != expected:
             out.append({'sig': {'check': 'cli_reported_set_differs', 'iface': 'cli', 'policy': 'false'}, 'case': case,
                         'message': f'cli_reported_set_differs: logged {dict(rep)}, expected {dict(expected)}'})
+        # the same over SEVERAL paths in one invocation (all top-level directories, both orders): every path is
+        # scanned, each offender of each path is logged once, exit status non-zero iff any path has an offender
+        if path == '':
+            tops = sorted({p.split('/')[0] for p in Tree.from_json(case['tree']).all_dirs()
+                           if p and not p.startswith('.')})
+            for paths in ([tops, tops[::-1]] if len(tops) > 1 else []):
+                exp_m = collections.Counter()
+                definite = True
+                for sp in paths:
+                    vv = refverify.expected_verify(root, TOP, sp)
+                    if vv.kind == 'dontcare' or vv.chain_broken or vv.conflicts or vv.enotdir or vv.oserror:
+                        definite = False
+                        break
+                    exp_m.update(vv.offenders.keys())
+                if not definite:
+                    continue
+                om = gem.cli(['verify', '-k'] + [os.path.join(root, sp) for sp in paths])
+                if stats is not None:
+                    stats.transitions += 1
+                    stats.counters['cli_multi_path_runs'] += 1
+                    if exp_m:
+                        stats.counters['cli_multi_path_runs_with_offenders'] += 1
+                repm = collections.Counter()
+                for (lv, m), info in zip(om['log'], om['log_info']):
+                    if lv != 'ERROR':
+                        continue
+                    if info is not None and info['exc'] == 'ManifestMismatch' and info['path'] is not None:
+                        repm[info['path']] += 1
+                    else:
+                        repm['<other>:' + m.split('\n')[0]] += 1
+                nm = sum(exp_m.values())
+                bad_exit = (om.get('exit') != 0) if nm == 0 else (not isinstance(om.get('exit'), int)
+                                                                  or om.get('exit') == 0)
+                if bad_exit:
+                    out.append({'sig': {'check': 'cli_multi_path_exit_status', 'iface': 'cli', 'policy': 'false'},
+                                'case': case,
+                                'message': f'cli_multi_path_exit_status: verify -k {paths} exit {om.get("exit")!r} '
+                                f'({gem.brief(om)}), expected {"0" if nm == 0 else "non-zero"} with offenders {dict(exp_m)}'})
+                elif repm != exp_m:
+                    out.append({'sig': {'check': 'cli_multi_path_reported_set_differs', 'iface': 'cli', 'policy': 'false'},
+                                'case': case,
+                                'message': f'cli_multi_path_reported_set_differs: verify -k {paths} logged {dict(repm)}, '
+                                f'expected {dict(exp_m)}'})
     return out
 
 
@@ -244,4 +289,6 @@ def finish(total, tier):
         errs.append('vacuity: no case with >=3 simultaneous offenders')
     if not any(k.startswith('offenders=0') for k in total.outcomes):
         errs.append('vacuity: no clean case')
+    if not total.counters.get('cli_multi_path_runs_with_offenders'):
+        errs.append('vacuity: no multi-path CLI run with offenders')
     return errs
